@@ -16,6 +16,8 @@ from mc.ref import tsfmt
 OBS_PREC = {"FOLLOWEDBY": 1, "OR": 2, "AND": 3}
 CMP_PREC = {"OR": 1, "AND": 2}
 IDENT = re.compile(r"^[a-zA-Z_][a-zA-Z0-9_]*\Z")
+# words the lexer turns into keyword tokens: as a path step they can only be written quoted
+RESERVED = {"AND", "OR", "NOT", "FOLLOWEDBY", "LIKE", "MATCHES", "ISSUPERSET", "ISSUBSET", "EXISTS", "LAST", "IN", "START", "STOP", "SECONDS", "true", "false", "WITHIN", "REPEATS", "TIMES"}
 
 
 # ---- printer -------------------------------------------------------------------------------------------
@@ -51,7 +53,7 @@ def p_path(p):
     out = []
     for i, st in enumerate(p[2]):
         if st[0] == "key":
-            name = st[1] if IDENT.match(st[1]) else "'%s'" % esc(st[1])
+            name = st[1] if IDENT.match(st[1]) and st[1] not in RESERVED else "'%s'" % esc(st[1])
             out.append(("." if i else "") + name)
         else:
             out.append("[%s]" % st[1])
@@ -320,6 +322,8 @@ def path_feature(p):
     for st in p[2]:
         if st[0] == "idx":
             f.append("index*" if st[1] == "*" else "index")
+        elif st[1] in RESERVED:
+            f.append("keyword-as-key")
         elif not IDENT.match(st[1]):
             f.append("quoted-key" + ("-with-hyphen" if "-" in st[1] else "-without-hyphen"))
         elif st[1].endswith("_ref"):
@@ -345,7 +349,10 @@ PATHS = [(("key", "p"),), (("key", "p"), ("key", "q")), (("key", "p"), ("idx", 1
          (("key", "p"), ("idx", 1), ("idx", 2)), (("key", "p"), ("idx", 10), ("key", "q"), ("idx", "*")),
          # steps that are letters / identifiers only outside ASCII, or end in white space: they stay quoted
          (("key", "p"), ("key", "caf\u00e9")), (("key", "p"), ("key", "\u043a\u043b\u044e\u0447"), ("idx", 1)), (("key", "p"), ("key", "k\n")), (("key", "p"), ("key", "9lives")),
-         (("key", "p"), ("key", "\uff4b\uff11"))]
+         (("key", "p"), ("key", "\uff4b\uff11")),
+         # steps spelled like keywords of the grammar
+         (("key", "p"), ("key", "AND")), (("key", "p"), ("key", "true")), (("key", "p"), ("key", "IN"), ("idx", 1)), (("key", "WITHIN"), ("key", "q")), (("key", "p"), ("key", "and")),
+         (("key", "p"), ("key", "k k"), ("idx", "*")), (("key", "p"), ("key", "k-k"), ("idx", "*"), ("key", "q")), (("key", "k k"), ("idx", 1))]
 OPS = ["=", "!=", "<", "<=", ">", ">=", "IN", "LIKE", "MATCHES", "ISSUBSET", "ISSUPERSET", "EXISTS"]
 
 
